@@ -151,8 +151,8 @@ structure Cfg where
 def Cfg.r (c : Cfg) : Nat := c.compRank.natAbs
 /-- `generate_fd_metrics and frequent_directions` -/
 def Cfg.genFd (c : Cfg) : Bool := c.fdMetrics && c.fd
-/-- `quantize_second_moment` -/
-def Cfg.quant2 (c : Cfg) : Bool := c.memReduction && c.compRank == 0 && !c.fd && c.batchAxis
+/-- `quantize_second_moment` (the int16 buffers exist on the pmap path only) -/
+def Cfg.quant2 (c : Cfg) : Bool := c.memReduction && c.compRank == 0 && !c.fd && c.batchAxis && !c.shard
 
 /-- the checks at the top of `distributed_shampoo(...)`, in source order -/
 def validate (c : Cfg) : Except Err Unit :=
@@ -160,6 +160,8 @@ def validate (c : Cfg) : Except Err Unit :=
   else if c.fd && decide (c.compRank ≤ 0) then .error (.reject .construct .valueError)
   else if c.fd && !c.reuse then .error (.reject .construct .valueError)
   else if c.avgGrad && !c.fd then .error (.reject .construct .valueError)
+  -- `num_devices_for_pjit` None / < 1 is transported as `ndev = 0`
+  else if c.shard && decide (c.ndev < 1) then .error (.reject .construct .valueError)
   else if c.fd && decide (c.statSteps ≠ c.precondSteps) then .error (.reject .construct .valueError)
   else .ok ()
 
@@ -455,6 +457,13 @@ def shardedStep (c : Cfg) (ps : List (List Nat)) (L : ShardedLayout) : Except Er
           .error (.internal .update "global preconditioner shape")
         else .ok { L with gStats := f32Leaf [tot, ms, ms], locals := locals }
 
+/-- `k` sharded updates -/
+def shardedSteps (c : Cfg) (ps : List (List Nat)) : Nat → ShardedLayout → Except Err ShardedLayout
+  | 0, L => pure L
+  | k + 1, L => do
+      let L' ← shardedStep c ps L
+      shardedSteps c ps k L'
+
 /-! ### signatures of layouts -/
 
 def leafSig (l : Leaf) : Sig := .leaf l.shape l.dt.name
@@ -540,7 +549,7 @@ def shapeDtypeDecl (c : Cfg) (ps : List (List Nat)) : Except Err Sig := do
 def specMom (c : Cfg) (shape : List Nat) (pspec : List String) : Sig :=
   if c.memReduction && decide (shape.length > 1) then
     .node "QuantizedValue" [.str "int8", .bool false, .nats shape]
-      [.spec pspec, emptyList, (if pspec.length > 1 then .spec pspec.tail else emptyList)]
+      [.spec pspec, emptyList, (if pspec.length > 1 then .spec pspec.tail else .spec [])]
   else
     .node "QuantizedValue" [.str "float32", .bool false, .nats shape]
       [.spec pspec, emptyList, emptyList]
